@@ -113,7 +113,73 @@ def v_addhelper(repo):
             f.write("\n\n_SELFTEST_UNUSED = (1, 2, 3)\n\n\ndef _selftest_unused_helper(x):\n    y = [x]\n    y.append(x)\n    return tuple(y)\n")
 
 
-SILENT = {"reformat": v_reformat, "rename": v_rename, "addhelper": v_addhelper}
+class _RenameAll(ast.NodeTransformer):
+    def __init__(self, names):
+        self.names = names
+
+    def visit_Name(self, n):
+        if n.id in self.names:
+            n.id = n.id + "_r"
+        return n
+
+    def visit_Nonlocal(self, n):
+        n.names = [x + "_r" if x in self.names else x for x in n.names]
+        return n
+
+    def visit_MatchAs(self, n):
+        self.generic_visit(n)
+        if n.name in self.names:
+            n.name = n.name + "_r"
+        return n
+
+    def visit_ExceptHandler(self, n):
+        self.generic_visit(n)
+        if n.name in self.names:
+            n.name = n.name + "_r"
+        return n
+
+
+def _locals_of(fn):
+    def params(f):
+        a = f.args
+        return {x.arg for x in a.args + a.kwonlyargs + a.posonlyargs} | ({a.vararg.arg} if a.vararg else set()) | ({a.kwarg.arg} if a.kwarg else set())
+    bound, banned = set(), set(params(fn))
+    for n in ast.walk(fn):
+        if isinstance(n, ast.Name) and isinstance(n.ctx, ast.Store):
+            bound.add(n.id)
+        elif isinstance(n, (ast.FunctionDef, ast.Lambda)) and n is not fn:
+            banned |= params(n)
+            if isinstance(n, ast.FunctionDef):
+                banned.add(n.name)
+        elif isinstance(n, ast.Global):
+            banned |= set(n.names)
+        elif isinstance(n, ast.MatchAs) and n.name:
+            bound.add(n.name)
+        elif isinstance(n, ast.ExceptHandler) and n.name:
+            bound.add(n.name)
+    return {b for b in bound - banned if not b.startswith("__")}
+
+
+def v_renameall(repo):
+    """every local variable of every function / method of the parser, lexer, generator and transforms gets a new name"""
+    total = 0
+    for f in ("c_parser.py", "c_lexer.py", "c_generator.py", "ast_transforms.py"):
+        p = os.path.join(repo, "pycparser", f)
+        with open(p) as fh:
+            tree = ast.parse(fh.read())
+        tops = [n for n in tree.body if isinstance(n, ast.FunctionDef)] + [m for c in tree.body if isinstance(c, ast.ClassDef) for m in c.body if isinstance(m, ast.FunctionDef)]
+        for fn in tops:
+            names = _locals_of(fn)
+            if names:
+                total += len(names)
+                _RenameAll(names).generic_visit(fn)
+        with open(p, "w") as fh:
+            fh.write(ast.unparse(tree) + "\n")
+    if total < 200:
+        raise RuntimeError(f"renameall variant renamed only {total} locals")
+
+
+SILENT = {"reformat": v_reformat, "rename": v_rename, "addhelper": v_addhelper, "renameall": v_renameall}
 
 
 def main(a) -> int:
@@ -135,9 +201,14 @@ def main(a) -> int:
             repo = os.path.join(root, "silent_" + name)
             _copy_repo(repo)
             fn(repo)
-            r = subprocess.run([sys.executable, "-c", "import sys; sys.path.insert(0, %r); import pycparser.c_parser, pycparser.c_generator" % repo], capture_output=True, text=True)
+            for sub in ("tests", "examples"):
+                if os.path.isdir(os.path.join(REPO, sub)):
+                    shutil.copytree(os.path.join(REPO, sub), os.path.join(repo, sub), ignore=shutil.ignore_patterns("__pycache__", "*.pyc"))
+            r = subprocess.run(["/venv/bin/python", "-m", "pytest", "-q", "-x", "-p", "no:cacheprovider", "tests"], cwd=repo, capture_output=True, text=True)
+            tail = (r.stdout.strip().splitlines() or [""])[-1]
+            print(f"variant {name}: the repository's own test suite on the variant: {tail}", flush=True)
             if r.returncode:
-                failures.append(f"silent variant {name} does not import: {r.stderr[-200:]}")
+                failures.append(f"silent variant {name} is not behaviour preserving (its test suite fails): {tail}")
                 continue
             for c in checks:
                 tasks.append(("silent:" + name, c, repo, 0))
